@@ -43,6 +43,21 @@ let handle op args =
       let taken = Stdlib.List.map bytes_of_string (split_list taken) in
       [join_list (Stdlib.List.map (fun g -> string_of_bytes (UniqueModel.wrapper_name (bytes_of_string msg) taken (bytes_of_string g)))
                     (split_list members))]
+  | "opaque", onames :: fields ->
+      let onames = Stdlib.List.map bytes_of_string (split_list onames) in
+      let fs = Stdlib.List.map (fun t ->
+        match String.split_on_char ':' t with
+        | [n; num; k; p] ->
+            { OpaqueModel.of_name = bytes_of_string n; of_num = n_of_int (int_of_string num);
+              of_oneof = (if k = "-" then None else Some (n_of_int (int_of_string k)));
+              of_presence = bool_of_tok p }
+        | _ -> failwith ("bad opaque field token " ^ t)) fields in
+      let o = OpaqueModel.opaque_hook fs onames in
+      let flags l = if l = [] then "-" else String.concat "" (Stdlib.List.map tok_of_bool l) in
+      [join_list (Stdlib.List.map string_of_bytes o.OpaqueModel.o_camel);
+       (if o.OpaqueModel.o_conflict = [] then "" else flags o.OpaqueModel.o_conflict);
+       join_list (Stdlib.List.map string_of_bytes o.OpaqueModel.o_ocamel);
+       flags o.OpaqueModel.o_oconflict]
   | _ -> failwith ("names: unknown op " ^ op)
 
 let () = register "names" handle
